@@ -30,9 +30,9 @@ def plan(ctx):
     return out
 
 
-def _gen(f, arg):
+def _gen(f, arg, gkw=None):
     try:
-        return ('ok', f(arg))
+        return ('ok', f(arg, **(gkw or {})))
     except Exception as e:  # noqa: B902
         return ('exc', type(e).__name__)
 
@@ -54,6 +54,7 @@ def _eval(res, name, m, gname, shape, opts, v, stats):
     if sh is None:
         return
     kw = opts.get('kw', {})
+    gkw = opts.get('gkw', {})
     alt = opts.get('alternatives', False)
     arg, pos = sh
     pos = tuple(p % len(v) for p in pos)
@@ -64,8 +65,8 @@ def _eval(res, name, m, gname, shape, opts, v, stats):
     if len(pos) > 1 and not all(c in e2.D for c in present):
         return   # multi-digit numeric checks: only numbers whose check characters are digits are in scope
     stats['triples'] += 1
-    g = _gen(f, arg)
-    case = {'module': name, 'generator': gname, 'number': v}
+    g = _gen(f, arg, gkw)
+    case = {'module': name, 'generator': gname, 'number': v, 'gkw': {k: core.enc(x) for k, x in gkw.items()}}
     if not _matches(g, present, alt):
         res.viol(ID, 'generator-differs', name, gname, dict(case, clause='i'),
                  '%s(%r) -> %r but valid number %r carries %r' % (gname, arg, g[1], v, present),
@@ -85,7 +86,7 @@ def _eval(res, name, m, gname, shape, opts, v, stats):
             o = outcome(m.validate, w, **kw)
             if o[0] == 'ok':
                 cand = ''.join(w[q] for q in pos)
-                gw = _gen(f, shape(w)[0]) if shape(w) else ('none',)
+                gw = _gen(f, shape(w)[0], gkw) if shape(w) else ('none',)
                 if alt and gw[0] == 'ok' and cand in gw[1]:
                     continue   # documented alternative check character
                 res.viol(ID, 'other-check-accepted', name, gname, dict(case, clause='ii', mutant=w),
@@ -103,7 +104,7 @@ def _eval(res, name, m, gname, shape, opts, v, stats):
             sh2 = shape(w)
             if sh2 is None:
                 continue
-            g2 = _gen(f, sh2[0])
+            g2 = _gen(f, sh2[0], gkw)
             if g2[0] != 'ok' or not isinstance(g2[1], str):
                 continue
             cands = [g2[1]] if not alt else list(g2[1])
@@ -135,9 +136,22 @@ def work(item):
     rows = c05_shapes.rows(name, m)
     stats = {'rows_skipped': 0, 'triples': 0, 'evals': 0, 'two_check_skips': 0, 'completed_accepted': 0}
     seen = set()
+    # option dimension: each single non-default option shared by the generator and validate()
+    from ..tables.options import option_sets
+    rows2 = []
+    for gname, shape, opts in rows:
+        rows2.append((gname, shape, opts))
+        f = getattr(m, gname, None)
+        if f is None:
+            continue
+        for o in option_sets(name, f, m.validate)[0][1:]:
+            o2 = dict(opts)
+            o2['kw'] = dict(opts.get('kw', {}), **o)
+            o2['gkw'] = dict(o)
+            rows2.append((gname, shape, o2))
+    rows = rows2
     for gname, shape, opts in rows:
         kw = opts.get('kw', {})
-        key = tuple(sorted(kw.items()))
         values, st = e2.valid_set(name, m, tier, nseeds=5 if tier != 'thorough' else 30, kw=kw,
                                   cap=120 if tier != 'thorough' else 3000)
         stats['evals'] += st['tried']
@@ -165,7 +179,12 @@ def replay(case):
     m = core.modules()[name]
     res = Result()
     stats = {'rows_skipped': 0, 'triples': 0, 'evals': 0, 'two_check_skips': 0, 'completed_accepted': 0}
+    gkw = {k: core.dec(x) for k, x in case.get('gkw', {}).items()}
     for gname, shape, opts in c05_shapes.rows(name, m):
         if gname == case['generator']:
-            _eval(res, name, m, gname, shape, opts, case['number'], stats)
+            o2 = dict(opts)
+            if gkw:
+                o2['kw'] = dict(opts.get('kw', {}), **gkw)
+                o2['gkw'] = gkw
+            _eval(res, name, m, gname, shape, o2, case['number'], stats)
     return [v for v in res['violations'] if v['case'].get('clause') == case.get('clause')]
